@@ -66,6 +66,7 @@ func (n *ModifierNode) Equal(other value.Value) bool {
 // Whether the left operand of a modifier has to be parenthesised.
 // Declarations are parsed before modifiers are considered,
 // `var a = b if c` is not a modifier expression.
+// Modifiers cannot be chained without parentheses.
 func modifierOperandNeedsParens(modifier, operand ExpressionNode) bool {
 	switch operand.(type) {
 	case *VariableDeclarationNode, *ValueDeclarationNode,
@@ -73,7 +74,7 @@ func modifierOperandNeedsParens(modifier, operand ExpressionNode) bool {
 		*ConstantDeclarationNode:
 		return true
 	}
-	return ExpressionPrecedence(modifier) > ExpressionPrecedence(operand)
+	return ExpressionPrecedence(modifier) >= ExpressionPrecedence(operand)
 }
 
 func (n *ModifierNode) String() string {
